@@ -52,8 +52,8 @@ Proof. reflexivity. Qed.
 
 (* ---- and the model really runs: a two-actor world through every phase ---- *)
 Definition ex_cfgs : list cfg :=
-  [mkCfg ([ETick], ROk) ([], ROk) ([ETick], ROk) SupDefault None;
-   mkCfg ([EGate 1], ROk) ([ETick], ROk) ([], ROk) SupDefault (Some 0)].
+  [mkCfg ([ETick], ROk) ([], ROk) ([ETick], ROk) SupDefault None false;
+   mkCfg ([EGate 1], ROk) ([ETick], ROk) ([], ROk) SupDefault (Some 0) false].
 Definition ex_ops : list dop :=
   [DL (LSpawn 0); DSettle; DL (LSpawn 1); DSettle; DL (LOpen 1); DSettle;
    DL (LSend 1 7); DSettle; DL (LKill 1); DSettle].
